@@ -418,7 +418,7 @@ class FnTyper:
                 elif ft[0] in ("func", "bound"):
                     out += T.ret_types(ft[1])
             return out
-        if isinstance(e, ast.ListComp):
+        if isinstance(e, (ast.ListComp, ast.GeneratorExp, ast.SetComp)):
             sub = FnTyperComp(self, e)
             return [("list", sub.etype(e.elt))]
         if isinstance(e, ast.List):
